@@ -307,6 +307,7 @@ fn known_probe(rep: &mut Report) {
 
 fn run(ctx: &Ctx) -> Report {
     let mut rep = Report::new(RULE);
+    rep.assume(&prog::budget_note());
     rep.assume("T_j (what lies before the first damaged chunk) is obtained by unauthenticated repair of the intact archive cut after j chunks; C05 checks that this repair is complete");
     let gen = || {
         prog::program(ProgParams { layers: &[1, 1, 3], max_files: 5, max_pieces: 4, min_files: 1, align_weight: 8, ..ProgParams::default() }).prop_map(|mut program| {
